@@ -98,14 +98,14 @@ theorem noSymFrom_true (fs : FS) (p : P) (fuel i : Nat)
         exact ih _ (fun j h1 h2 => hd j (by omega) h2)
       · rw [hf]; simp [hl]
 
-theorem ensureNoSymlinks_true (fs : FS) (root p : P) (hne : p ≠ root) (hroot : ∃ m, fs.get root = some (.dir m))
+theorem ensureNoSymlinks_true (fs : FS) (root p : P) (hne : p ≠ root)
+    (hroot : fs.get root = none ∨ ∃ m, fs.get root = some (.dir m))
     (hd : ∀ j, root.length + 1 ≤ j → j ≤ p.length → fs.get (p.take j) = none ∨ (∃ m, fs.get (p.take j) = some (.dir m)) ∨
       (j = p.length ∧ ∃ ino, fs.get (p.take j) = some (.file ino))) :
     ensureNoSymlinks fs root p = true := by
-  obtain ⟨m, hm⟩ := hroot
   unfold ensureNoSymlinks
-  rw [if_neg hne, hm]
-  exact noSymFrom_true fs p _ _ hd
+  rw [if_neg hne]
+  rcases hroot with hm | ⟨m, hm⟩ <;> rw [hm] <;> exact noSymFrom_true fs p _ _ hd
 
 /-! ### well-formed trees: every non-empty proper prefix of an existing path is a directory -/
 
@@ -136,11 +136,11 @@ def NodeOf (root : P) (mask : Nat) (fs' : FS) (e : Entry) (n : Nd) : Prop :=
   (e.kind = .symlink → n = .symlink e.link) ∧
   (e.kind = .link → ∃ ino, n = .file ino ∧ fs'.get (cleanJoin root e.link) = some (.file ino))
 
-/-- the path `p` can take a new entry: strictly below the root (an existing directory), absent, and every existing
+/-- the path `p` can take a new entry: strictly below the root (a directory, or missing), absent, and every existing
     proper prefix is a directory -/
 structure Ready (fs : FS) (root p : P) : Prop where
   below : ∃ c t, p = root ++ c :: t
-  rootdir : ∃ m, fs.get root = some (.dir m)
+  rootdir : fs.get root = none ∨ ∃ m, fs.get root = some (.dir m)
   absent : fs.get p = none
   pre : ∀ j, 1 ≤ j → j < p.length → fs.get (p.take j) = none ∨ ∃ m, fs.get (p.take j) = some (.dir m)
 
